@@ -1,8 +1,12 @@
 package main
 
-// Solver layer: one persistent SMT-LIB2 process per worker (z3 -in by default).
-// No set-logic (z3 4.8.12 drops `as const` under QF_ABV). Any "(error" line makes
-// the answer inconclusive.
+// Solver layer: one persistent SMT-LIB2 process per worker (incremental,
+// push/pop) with a short per-query budget, and a one-shot non-incremental
+// fallback process for the queries the incremental core does not finish
+// (z3's incremental mode skips the bit-blasting tactics that decide the
+// linear length/offset arithmetic in milliseconds). No set-logic (z3 4.8.12
+// drops `as const` under QF_ABV). Any "(error" line makes the answer
+// inconclusive.
 
 import (
 	"bufio"
@@ -19,24 +23,84 @@ type SolverStats struct {
 	Sat       int
 	Unsat     int
 	Unknown   int
+	Fallbacks int
 	Time      time.Duration
 	MaxQuery  time.Duration
-	CrossRuns int
+}
+
+type proc struct {
+	cmd *exec.Cmd
+	in  io.WriteCloser
+	out *bufio.Reader
+	log io.Writer
+}
+
+func startProc(argv []string) (*proc, error) {
+	p := &proc{}
+	p.cmd = exec.Command(argv[0], argv[1:]...)
+	var err error
+	p.in, err = p.cmd.StdinPipe()
+	if err != nil {
+		return nil, err
+	}
+	o, err := p.cmd.StdoutPipe()
+	if err != nil {
+		return nil, err
+	}
+	p.cmd.Stderr = p.cmd.Stdout
+	p.out = bufio.NewReaderSize(o, 1<<20)
+	if err := p.cmd.Start(); err != nil {
+		return nil, err
+	}
+	return p, nil
+}
+
+func (p *proc) send(txt string) {
+	if p.log != nil {
+		io.WriteString(p.log, txt)
+	}
+	io.WriteString(p.in, txt)
+}
+
+func (p *proc) close() {
+	if p.cmd != nil {
+		p.in.Close()
+		p.cmd.Process.Kill()
+		p.cmd.Wait()
+		p.cmd = nil
+	}
+}
+
+func (p *proc) readUntilDone() ([]string, string) {
+	var lines []string
+	errtxt := ""
+	for {
+		l, err := p.out.ReadString('\n')
+		if err != nil {
+			return lines, "solver died: " + err.Error()
+		}
+		l = strings.TrimRight(l, "\r\n")
+		if l == "<<done>>" || l == "\"<<done>>\"" {
+			return lines, errtxt
+		}
+		if strings.Contains(l, "(error") {
+			errtxt += l + "\n"
+		}
+		lines = append(lines, l)
+	}
 }
 
 type Solver struct {
-	name    string
-	cmd     *exec.Cmd
-	in      io.WriteCloser
-	out     *bufio.Reader
-	p       *printer
-	ctx     *TermCtx
-	Stats   SolverStats
-	timeout int // ms per query
-	log     io.Writer
-	// assertion stack mirror (for cross-checking on a second solver)
-	asserted []*Term
-	marks    []int
+	name     string
+	main     *proc
+	p        *printer
+	ctx      *TermCtx
+	Stats    SolverStats
+	quickMs  int // budget of the incremental attempt
+	fullMs   int // budget of the one-shot fallback
+	fallback []string
+	log      io.Writer
+	ctxText  strings.Builder // everything asserted/declared outside push scopes since the last reset
 }
 
 func solverArgv(name string, timeoutMs int) []string {
@@ -51,90 +115,62 @@ func solverArgv(name string, timeoutMs int) []string {
 	panic("unknown solver " + name)
 }
 
+var primarySolver = "z3"
+var fallbackSolvers = []string{"z3-new", "z3"}
+
 func NewSolver(name string, ctx *TermCtx, timeoutMs int) (*Solver, error) {
-	s := &Solver{name: name, ctx: ctx, timeout: timeoutMs}
-	if err := s.start(); err != nil {
+	s := &Solver{name: name, ctx: ctx, fullMs: timeoutMs, quickMs: 400, fallback: fallbackSolvers}
+	if s.quickMs > timeoutMs {
+		s.quickMs = timeoutMs
+	}
+	var err error
+	s.main, err = startProc(solverArgv(name, s.quickMs))
+	if err != nil {
 		return nil, err
 	}
-	return s, nil
-}
-
-func (s *Solver) start() error {
-	argv := solverArgv(s.name, s.timeout)
-	s.cmd = exec.Command(argv[0], argv[1:]...)
-	var err error
-	s.in, err = s.cmd.StdinPipe()
-	if err != nil {
-		return err
-	}
-	o, err := s.cmd.StdoutPipe()
-	if err != nil {
-		return err
-	}
-	s.cmd.Stderr = s.cmd.Stdout
-	s.out = bufio.NewReaderSize(o, 1<<20)
-	if err := s.cmd.Start(); err != nil {
-		return err
-	}
 	s.resetPrinter()
-	s.send("(set-option :produce-models true)\n")
-	if s.name == "cvc5" {
-		s.send("(set-logic ALL)\n")
-	}
-	return nil
+	s.main.send("(set-option :produce-models true)\n")
+	return s, nil
 }
 
 func (s *Solver) resetPrinter() {
 	s.p = &printer{defined: map[int]bool{}, declared: map[string]bool{}, pre: &strings.Builder{}, ctx: s.ctx}
-	s.asserted = nil
-	s.marks = nil
+	s.ctxText.Reset()
 }
 
 func (s *Solver) Close() {
-	if s.cmd != nil {
-		s.in.Close()
-		s.cmd.Process.Kill()
-		s.cmd.Wait()
-		s.cmd = nil
+	if s.main != nil {
+		s.main.close()
+		s.main = nil
 	}
 }
 
-func (s *Solver) send(txt string) {
-	if s.log != nil {
-		io.WriteString(s.log, txt)
-	}
-	io.WriteString(s.in, txt)
+// sendCtx sends text that belongs to the persistent context.
+func (s *Solver) sendCtx(txt string) {
+	s.ctxText.WriteString(txt)
+	s.main.log = s.log
+	s.main.send(txt)
 }
 
 // Reset drops all assertions, declarations and definitions.
 func (s *Solver) Reset() {
-	if s.name == "cvc5" {
-		// cvc5 (reset) also forgets options; restart cheaply
-		s.send("(reset)\n(set-option :produce-models true)\n(set-option :incremental true)\n(set-logic ALL)\n")
-	} else {
-		s.send("(reset)\n(set-option :produce-models true)\n")
-	}
+	s.main.log = s.log
+	s.main.send("(reset)\n(set-option :produce-models true)\n")
 	s.resetPrinter()
 }
-
-// Declarations made inside a push scope would be lost on pop, so all
-// declare/define commands are emitted at the outermost level: we only
-// push/pop around a single check (assert goal; check-sat), and terms needed by
-// the goal are defined before the push.
 
 func (s *Solver) Assert(t *Term) {
 	if t.IsTrue() {
 		return
 	}
 	r := s.p.ref(t)
-	s.flushPre()
-	s.send("(assert " + r + ")\n")
-	s.asserted = append(s.asserted, t)
+	s.flushPreCtx()
+	s.sendCtx("(assert " + r + ")\n")
 }
 
-func (s *Solver) flushPre() {
+func (s *Solver) flushPreCtx() {
 	if s.p.pre.Len() > 0 {
-		s.send(s.p.pre.String())
+		s.sendCtx(s.p.pre.String())
 		s.p.pre.Reset()
 	}
 }
@@ -160,23 +196,7 @@ func (s *Solver) CheckWith(extra *Term, modelOf []*Term) (SatResult, []uint64, s
 	return r, vals, e
 }
 
-// CheckWithModel checks PC ∧ extra; on sat, onSat may query model values
-// (inside the same scope) through get.
-func (s *Solver) CheckWithModel(extra *Term, onSat func(get func([]*Term) []uint64)) (SatResult, []uint64, string) {
-	start := time.Now()
-	var r string
-	if extra != nil {
-		r = s.p.ref(extra)
-	}
-	s.flushPre()
-	s.send("(push 1)\n")
-	s.p.journal = []string{}
-	s.p.inScope = true
-	if extra != nil {
-		s.send("(assert " + r + ")\n")
-	}
-	s.send("(check-sat)\n(echo \"<<done>>\")\n")
-	lines, errtxt := s.readUntilDone()
+func parseSat(lines []string, errtxt string) SatResult {
 	res := Unknown
 	for _, l := range lines {
 		switch strings.TrimSpace(l) {
@@ -191,6 +211,58 @@ func (s *Solver) CheckWithModel(extra *Term, onSat func(get func([]*Term) []uint
 	if errtxt != "" {
 		res = Unknown
 	}
+	return res
+}
+
+// CheckWithModel checks PC ∧ extra; on sat, onSat may query model values
+// (inside the same scope) through get.
+func (s *Solver) CheckWithModel(extra *Term, onSat func(get func([]*Term) []uint64)) (SatResult, []uint64, string) {
+	start := time.Now()
+	var r string
+	if extra != nil {
+		r = s.p.ref(extra)
+	}
+	s.flushPreCtx()
+	pr := s.main
+	pr.log = s.log
+	pr.send("(push 1)\n")
+	s.p.journal = []string{}
+	s.p.inScope = true
+	if extra != nil {
+		pr.send("(assert " + r + ")\n")
+	}
+	pr.send("(check-sat)\n(echo \"<<done>>\")\n")
+	lines, errtxt := pr.readUntilDone()
+	res := parseSat(lines, errtxt)
+	var one *proc
+	if res == Unknown && !strings.Contains(errtxt, "solver died") {
+		// one-shot, non-incremental fallback on the full context
+		for _, fb := range s.fallback {
+			if one != nil {
+				one.close()
+				one = nil
+			}
+			var err error
+			one, err = startProc(solverArgv(fb, s.fullMs))
+			if err != nil {
+				continue
+			}
+			s.Stats.Fallbacks++
+			one.send("(set-option :produce-models true)\n")
+			one.send(s.ctxText.String())
+			if extra != nil {
+				one.send("(assert " + r + ")\n")
+			}
+			one.send("(check-sat)\n(echo \"<<done>>\")\n")
+			l2, e2 := one.readUntilDone()
+			res = parseSat(l2, e2)
+			errtxt = e2
+			if res != Unknown {
+				pr = one
+				break
+			}
+		}
+	}
 	if res == Sat && onSat != nil {
 		get := func(ts []*Term) []uint64 {
 			vals := make([]uint64, len(ts))
@@ -204,9 +276,16 @@ func (s *Solver) CheckWithModel(extra *Term, onSat func(get func([]*Term) []uint
 				for _, t := range ts[i:j] {
 					refs = append(refs, s.p.ref(t))
 				}
-				s.flushPre()
-				s.send("(get-value (" + strings.Join(refs, " ") + "))\n(echo \"<<done>>\")\n")
-				ls, e2 := s.readUntilDone()
+				if s.p.pre.Len() > 0 {
+					// scoped helper definitions: needed by whichever process answers
+					pr.send(s.p.pre.String())
+					if pr != s.main {
+						s.main.send(s.p.pre.String())
+					}
+					s.p.pre.Reset()
+				}
+				pr.send("(get-value (" + strings.Join(refs, " ") + "))\n(echo \"<<done>>\")\n")
+				ls, e2 := pr.readUntilDone()
 				if e2 != "" {
 					errtxt += e2
 					res = Unknown
@@ -224,7 +303,10 @@ func (s *Solver) CheckWithModel(extra *Term, onSat func(get func([]*Term) []uint
 		}
 		onSat(get)
 	}
-	s.send("(pop 1)\n")
+	if one != nil {
+		one.close()
+	}
+	s.main.send("(pop 1)\n")
 	for _, k := range s.p.journal {
 		if strings.HasPrefix(k, "#") {
 			id, _ := strconv.Atoi(k[1:])
@@ -252,30 +334,10 @@ func (s *Solver) CheckWithModel(extra *Term, onSat func(get func([]*Term) []uint
 	return res, nil, errtxt
 }
 
-func (s *Solver) readUntilDone() ([]string, string) {
-	var lines []string
-	errtxt := ""
-	for {
-		l, err := s.out.ReadString('\n')
-		if err != nil {
-			return lines, "solver died: " + err.Error()
-		}
-		l = strings.TrimRight(l, "\r\n")
-		if l == "<<done>>" || l == "\"<<done>>\"" {
-			return lines, errtxt
-		}
-		if strings.Contains(l, "(error") {
-			errtxt += l + "\n"
-		}
-		lines = append(lines, l)
-	}
-}
-
 // parseValues extracts the value literals, in order, from a get-value reply
 // "((t1 #x00) (t2 true) ((select a i) #b01) ...)".
 func parseValues(s string) []uint64 {
 	var out []uint64
-	// Tokenise; a value is the last token before the ')' that closes a pair at depth 2.
 	depth := 0
 	i := 0
 	lastTok := ""
